@@ -85,8 +85,24 @@ func (k KeyState) String() string {
 	return s
 }
 
-// ReadKey reads value and digest of key from an engine.
+// ReadKey reads value and digest of key from an engine. The two reads are not atomic with
+// respect to a concurrently committing pipeline, so the pair is re-read until the digest is
+// the same before and after the value read.
 func ReadKey(ctx context.Context, eng xkv.Reader, key string) (KeyState, error) {
+	var prev KeyState
+	for i := 0; ; i++ {
+		ks, err := readKeyOnce(ctx, eng, key)
+		if err != nil {
+			return ks, err
+		}
+		if i > 0 && ks == prev || i >= 8 {
+			return ks, nil
+		}
+		prev = ks
+	}
+}
+
+func readKeyOnce(ctx context.Context, eng xkv.Reader, key string) (KeyState, error) {
 	var ks KeyState
 	d, err := verifx.GetDigest(ctx, eng, []byte(key))
 	if err == nil {
@@ -254,7 +270,7 @@ func RunIngress(ctx context.Context, r *prng.R, p IngressParams) (*IngressTrace,
 	snapshot := func(rp *replica) (map[string]KeyState, error) {
 		m := make(map[string]KeyState, len(t.Keys))
 		for _, k := range t.Keys {
-			ks, err := ReadKey(ctx, rp.eng, k)
+			ks, err := readKeyOnce(ctx, rp.eng, k) // nothing runs concurrently here
 			if err != nil {
 				return nil, err
 			}
